@@ -442,4 +442,4 @@ def run_shard(ctx):
             cl.append('same-name-hidden-and-in-text')
         ctx.stats.case(key=(src, doc[0], doc[1]), nontrivial=nt, classes=cl,
                        sample={'src': src, 'pack': doc[0], 'dcls': doc[1], 'expected': w.expected})
-    hyp_run(ctx, doc_s, one, ctx.n(30000, 600000))
+    hyp_run(ctx, doc_s, one, ctx.n(30000, 300000))
